@@ -40,20 +40,25 @@ def parseDigits : List UInt8 → Nat → Option Nat
 
 def inI64 (n : Int) : Bool := -9223372036854775808 ≤ n && n ≤ 9223372036854775807
 
-/-- `strconv.Atoi` on a 64-bit platform: optional sign, at least one decimal digit, value within
-int64; `none` = error (syntax or range). -/
-def atoi (s : Str) : Option Int :=
-  let (neg, ds) := match s with
-    | 45 :: r => (true, r)
-    | 43 :: r => (false, r)
-    | r => (false, r)
+/-- digits (after the optional sign) → value; at least one digit, result within int64. -/
+def atoiDigits (neg : Bool) (ds : Str) : Option Int :=
   match ds with
   | [] => none
-  | _ => match parseDigits ds 0 with
+  | _ :: _ => match parseDigits ds 0 with
     | none => none
     | some m =>
       let v : Int := if neg then -(m : Int) else (m : Int)
       if inI64 v then some v else none
+
+/-- `strconv.Atoi` on a 64-bit platform: optional sign, at least one decimal digit, value within
+int64; `none` = error (syntax or range). -/
+def atoi (s : Str) : Option Int :=
+  match s with
+  | [] => none
+  | c :: r =>
+    if c = 45 then atoiDigits true r
+    else if c = 43 then atoiDigits false r
+    else atoiDigits false (c :: r)
 
 /-! ## bools (`commands.go` `stringToBool`) -/
 
@@ -159,6 +164,15 @@ all other fields take the default. -/
 def normURL : List FieldSpec → Config → Config
   | f :: fs, v :: vs => (if inURL f then normVal f v else f.default) :: normURL fs vs
   | _, _ => []
+
+/-- the full promise — EVERY saved option survives ("" ≡ default), transient ones take the default;
+equals `normURL` exactly when every saved field has a URL parameter (`allSavedInURL`). -/
+def normSaved : List FieldSpec → Config → Config
+  | f :: fs, v :: vs => (if f.saved then normVal f v else f.default) :: normSaved fs vs
+  | _, _ => []
+
+/-- table fact: every saved field is carried by URLs. -/
+def allSavedInURL (fs : List FieldSpec) : Bool := fs.all (fun f => !f.saved || decide (f.urlparam ≠ []))
 
 /-! ## JSON objects -/
 
